@@ -9,7 +9,7 @@ import subprocess
 import sys
 import time
 
-TOGETHER = {"b820b69": ["64bb021"], "94258ae": ["4a92d24"]}
+TOGETHER = {"b820b69": ["64bb021"], "94258ae": ["4a92d24"], "f80b98e": ["12252bb"]}
 res = []
 try:
     res = [r for r in json.load(open("/verif/fix_validation.json")) if str(r.get("result", "")).startswith("detected")]
